@@ -219,6 +219,9 @@ func (s *Scratch) replayModel(rel string, m *Model) string {
 	if !strings.Contains(out, "REPLAY: ") && (strings.Contains(out, "all goroutines are asleep") || strings.Contains(out, "test timed out")) {
 		return "panic native run blocked forever (deadlock / test timed out after 30s)"
 	}
+	if i := strings.Index(out, "\npanic: "); i >= 0 && !strings.Contains(out, "REPLAY: ") {
+		return "panic in a goroutine of the native run: " + firstLine(out[i+1:])
+	}
 	for _, l := range strings.Split(out, "\n") {
 		if strings.HasPrefix(l, "REPLAY: ") {
 			first = strings.TrimPrefix(l, "REPLAY: ")
@@ -227,9 +230,12 @@ func (s *Scratch) replayModel(rel string, m *Model) string {
 	}
 	if first == "passed" {
 		// the model may depend on the runtime's map iteration order, which cannot be forced: retry
-		out2, _, _ := runCmd(s.Repo, env, 5*time.Minute, "go", "test", "-v", "-vet=off", "-count=40", "-timeout", "120s", "-run", "^TestVXReplay$", "./"+rel)
+		out2, _, _ := runCmd(s.Repo, env, 5*time.Minute, "go", "test", "-v", "-vet=off", "-count=150", "-cpu", "1,2,8", "-timeout", "240s", "-run", "^TestVXReplay$", "./"+rel)
 		if strings.Contains(out2, "all goroutines are asleep") || strings.Contains(out2, "test timed out") {
-			return "panic native run blocked forever in some of 40 runs (deadlock / test timed out)"
+			return "panic native run blocked forever in some of 450 runs (deadlock / test timed out)"
+		}
+		if i := strings.Index(out2, "\npanic: "); i >= 0 {
+			return "panic in a goroutine in some of 450 native runs: " + firstLine(out2[i+1:])
 		}
 		n, bad := 0, ""
 		for _, l := range strings.Split(out2, "\n") {
